@@ -341,7 +341,8 @@ def _r2_r3_producer(run, st, work_queues):
         s_iters.setdefault(_strip(it), []).append((k, node))
     # the walk stage is a dispatcher with a completion channel: its producer is the seeding
     # loop plus the dispatch loop; item-set agreement with serial is C01's business.
-    is_dispatcher = bool(common.method_calls_on(st.cfg, set(st.queues) - work_queues, "get"))
+    is_dispatcher = bool(common.method_calls_on(st.cfg, set(st.queues) - work_queues, "get")) or \
+        bool(list(common.effect_sites(project, f, st.cfg, set(st.queues) - work_queues, "get")))      # (also when the wait sits in a helper)
     for e in puts:
         k = _loop_index_of(e.pc)
         if k is None:
@@ -980,12 +981,19 @@ def _r5(run, st, w, cfg, gnode, gcall, loop, handlers, exits, is_flag_read, fact
         run.undecided("C03.R5", w, gcall, "cannot relate the done-flag read to the receive", kind="flag-unrelated", **facts)
 
 
+def st_project(st):
+    return getattr(st, "project", None)
+
+
 def _has_completion_channel(st):
     """Stage receives from a second queue (completion reports) in a loop that
     dominates the flag set(), leaving only via break under a comparison."""
     cfg = st.cfg
     other = set(st.queues) - _work_queues(st)
     gets = common.method_calls_on(cfg, other, "get")
+    if not gets:
+        # the wait for a completion report may sit in a helper that is handed the completion queue
+        gets = [(n_, c_) for n_, c_, h_ in common.effect_sites(st_project(st), st.func, cfg, other, "get") if h_ is not None]
     if not gets:
         return False
     sets = common.method_calls_on(cfg, _event_vars(st), "set")
